@@ -1,20 +1,20 @@
 SPECIFICATION Spec
 CONSTANTS
-  Threshold = 1
+  Threshold = 2
   MaxRedirect = 65535
   MaxHeader = 255
   Deviations = {}
   Bug = ""
   Mode = "lk"
-  NC = 2
+  NC = 3
   MaxBody = 3
-  MaxPrefix = 2
-  SkipBytes = {0, 128}
-  Variants = {0}
+  MaxPrefix = 1
+  SkipBytes = {0, 1, 128}
+  Variants = {1}
   DimVals = {0, 3}
   MaxW = 2
   MaxH = 1
-  DomT = 1
+  DomT = 2
   PadK = 0
   Waive = {}
 INVARIANTS Idempotent SameFont SameChains Fits Closed MainLoopSame PlWellFormed
